@@ -1951,3 +1951,256 @@ Proof.
   - split; cbn; unfold ver_wf, version_wrap; cbn; lia.
   - right; right. reflexivity.
 Qed.
+
+(* ================= Part 5: C04 ================= *)
+
+(* ---------------- splitting the bytes of an item list at a byte boundary ---------------- *)
+
+Lemma run_item_prefix cache c it :
+  run_item (cache, c) it = (fst (run_item (cache, []) it), c ++ snd (run_item (cache, []) it)).
+Proof.
+  destruct it as [w v|b|bs]; cbn [run_item fst snd]; try (unfold push_bits; cbn [fst snd app]; reflexivity).
+  destruct cache as [|c0 cache].
+  - destruct bs; cbn [fst snd app]; [rewrite app_nil_r|]; reflexivity.
+  - unfold push_bits; cbn [fst snd app]; reflexivity.
+Qed.
+
+Lemma run_items_prefix l : forall cache c,
+  run_items l (cache, c) = (fst (run_items l (cache, [])), c ++ snd (run_items l (cache, []))).
+Proof.
+  induction l as [|it l IH]; intros cache c; unfold run_items in *; cbn [fold_left].
+  - cbn [fst snd]. rewrite app_nil_r. reflexivity.
+  - rewrite (run_item_prefix cache c it). destruct (run_item (cache, []) it) as [cache' new] eqn:E. cbn [fst snd].
+    rewrite (IH cache' (c ++ new)), (IH cache' new). cbn [fst snd]. rewrite app_assoc. reflexivity.
+Qed.
+
+Lemma bytes_of_items_app a b n : ibz a = 8 * n -> bytes_of_items (a ++ b) = bytes_of_items a ++ bytes_of_items b.
+Proof.
+  intros H. unfold bytes_of_items, chunks_of, run_items. rewrite fold_left_app. fold (run_items a ([], [])).
+  pose proof (run_items_total a ([], [])) as T. pose proof (run_items_cache a ([], []) ltac:(simpl; lia)) as C.
+  change (st_total ([], [])) with 0%nat in T. unfold st_total in T. unfold ibz in H.
+  destruct (run_items a ([], [])) as [ca cha] eqn:E. cbn [fst snd] in *.
+  assert (Hca : ca = []) by (apply length_zero_iff_nil; lia). subst ca.
+  fold (run_items b ([], cha)). rewrite (run_items_prefix b [] cha). cbn [snd]. rewrite concat_app. reflexivity.
+Qed.
+
+(* ---------------- whole packets ---------------- *)
+
+Definition group_ok (g : list (list Z)) : Prop :=
+  Z.of_nat (length (concat g)) = C_MpegTsPacketSize /\ nth 0 (concat g) 0 = syncByte.
+
+Definition part_wf (p : part) : Prop :=
+  pa_n p = C_MpegTsPacketSize * Z.of_nat (length (pa_groups p)) /\ Forall group_ok (pa_groups p).
+
+Lemma enc_packet_group p its : enc_packet p C_MpegTsPacketSize = Ok its -> group_ok (chunks_of its).
+Proof.
+  intros H. unfold group_ok. change (concat (chunks_of its)) with (bytes_of_items its). split.
+  - eapply enc_packet_size; eauto.
+  - destruct (enc_packet_sync _ _ _ H) as [rest ->].
+    change (wu8 syncByte :: rest) with ([wu8 syncByte] ++ rest). rewrite (bytes_of_items_app _ _ 1) by reflexivity. reflexivity.
+Qed.
+
+Lemma write_packet_group p bs : write_packet p C_MpegTsPacketSize = Ok bs -> group_ok [bs].
+Proof.
+  unfold write_packet. destruct (enc_packet p C_MpegTsPacketSize) as [its|c|] eqn:E; cbn [res_map]; try discriminate.
+  intros H. apply ok_inj in H. subst bs. pose proof (enc_packet_group _ _ E) as G. unfold group_ok in *.
+  cbn [concat]. rewrite app_nil_r. exact G.
+Qed.
+
+Lemma part_wf_nil r : part_wf (mk_part r 0 [] []).
+Proof. split; [reflexivity|constructor]. Qed.
+
+Lemma part_wf_app a b : part_wf a -> part_wf b -> part_wf (part_app a b).
+Proof.
+  intros [Ha1 Ha2] [Hb1 Hb2]. split; cbn [part_app pa_n pa_groups].
+  - rewrite app_length, Ha1, Hb1. lia.
+  - apply Forall_app. split; assumption.
+Qed.
+
+Lemma emit_packet_wf p : match po_res (emit_packet p) with
+                         | Ok n => n = C_MpegTsPacketSize /\ group_ok (po_group (emit_packet p))
+                         | _ => po_group (emit_packet p) = []
+                         end.
+Proof.
+  unfold emit_packet. destruct (enc_packet p C_MpegTsPacketSize) as [its|c|] eqn:E; cbn [po_res po_group]; try reflexivity.
+  split; [reflexivity|]. eapply enc_packet_group; eauto.
+Qed.
+
+Lemma write_tables_wf s : part_wf (snd (write_tables s)).
+Proof.
+  unfold write_tables, generate_pat, generate_pmt.
+  destruct (next_version (ms_pat_version s) (ms_pm_updated s)) as [patv pver].
+  destruct (write_psi_data (psi_of_section (pat_section pver))) as [ppay|c|]; cbn [snd]; try apply part_wf_nil.
+  destruct (write_packet _ _) as [bpat|c|] eqn:Ewp; cbn [snd]; try apply part_wf_nil.
+  destruct (negb _); cbn [snd]; try apply part_wf_nil.
+  destruct (_ >? _); cbn [snd]; try apply part_wf_nil.
+  destruct (next_version _ _) as [pmtv mver].
+  destruct (write_psi_data _) as [mpay|c|]; cbn [snd]; try apply part_wf_nil.
+  destruct (write_packet (table_packet C_pmtStartPID _ _) _) as [bpmt|c|] eqn:Ewm; cbn [snd]; try apply part_wf_nil.
+  pose proof (write_packet_group _ _ Ewp) as G1. pose proof (write_packet_group _ _ Ewm) as G2.
+  split; cbn [pa_n pa_groups].
+  - destruct G1 as [G1 _], G2 as [G2 _]. cbn [concat] in G1, G2. rewrite app_nil_r in G1, G2. unfold blen. cbn [length]. lia.
+  - constructor; [exact G1|constructor; [exact G2|constructor]].
+Qed.
+
+Lemma retransmit_wf s f : part_wf (snd (retransmit_tables s f)).
+Proof.
+  unfold retransmit_tables. destruct (negb f && _); cbn [snd]; [apply part_wf_nil|].
+  pose proof (write_tables_wf (set_retransmit s (ms_retransmit s + 1))) as W.
+  destruct (write_tables _) as [s2 pt]. cbn [snd] in *. destruct pt as [rt nt gt pkt]. destruct rt; cbn [snd]; exact W.
+Qed.
+
+Lemma wd_loop_wf fuel : forall pid h cc af ps left, part_wf (lo_part (wd_loop fuel pid h cc af ps left)).
+Proof.
+  induction fuel as [|fuel IH]; intros pid h cc af ps left; cbn [wd_loop].
+  - destruct left; apply part_wf_nil.
+  - destruct left as [|b0 left']; [apply part_wf_nil|].
+    destruct (ps && _).
+    + match goal with |- context [emit_packet ?p] => pose proof (emit_packet_wf p) as W; destruct (po_res (emit_packet p)) end;
+        try apply part_wf_nil.
+      destruct W as [-> G]. cbn [lo_cons lo_part]. destruct (IH pid h cc None ps (b0 :: left')) as [I1 I2].
+      split; cbn [pa_n pa_groups length]; [lia|constructor; assumption].
+    + destruct (write_pes_data _ _ _ _) as [[[items ntot] npayload]|c|]; try apply part_wf_nil.
+      match goal with |- context [emit_packet ?p] => pose proof (emit_packet_wf p) as W; destruct (po_res (emit_packet p)) end;
+        try apply part_wf_nil.
+      destruct W as [-> G]. cbn [lo_cons lo_part].
+      destruct (IH pid h (wrappingCounter_inc_st cc) None false (skipn (Z.to_nat npayload) (b0 :: left'))) as [I1 I2].
+      split; cbn [pa_n pa_groups length]; [lia|constructor; assumption].
+Qed.
+
+Lemma write_data_wf s d : part_wf (snd (write_data s d)).
+Proof.
+  unfold write_data. destruct (es_find _ _) as [ctx|]; cbn [snd]; [|apply part_wf_nil].
+  pose proof (retransmit_wf s (af_rai (MuxerData_AdaptationField d) && (MuxerData_PID d =? ms_pcr_pid s))) as W.
+  destruct (retransmit_tables _ _) as [s1 pt]. cbn [snd] in W. destruct pt as [rt nt gt pkt]. destruct rt as [u|c|]; cbn [snd]; try exact W.
+  destruct u.
+  destruct (MuxerData_PES d) as [pes|]; cbn [snd]; [|apply part_wf_app; [exact W|apply part_wf_nil]].
+  destruct (PESData_Data pes) as [|b0 data']; cbn [snd]; [exact W|].
+  destruct (PESData_Header pes) as [h0|]; cbn [snd]; [|apply part_wf_app; [exact W|apply part_wf_nil]].
+  apply part_wf_app; [exact W|apply wd_loop_wf].
+Qed.
+
+(* every call: the bytes it hands to the writer are whole packets, counted exactly *)
+Lemma step_part_wf s o : part_wf (snd (mux_step_part s o)).
+Proof.
+  destruct o as [es|q|q| |d|pk]; cbn [mux_step_part].
+  - destruct (add_es s es). apply part_wf_nil.
+  - destruct (remove_es s q). apply part_wf_nil.
+  - apply part_wf_nil.
+  - apply write_tables_wf.
+  - apply write_data_wf.
+  - cbn [snd]. unfold write_packet_op. pose proof (emit_packet_wf pk) as W. destruct (po_res (emit_packet pk)); try apply part_wf_nil.
+    destruct W as [-> G]. split; cbn [pa_n pa_groups length]; [lia|constructor; [exact G|constructor]].
+Qed.
+
+Lemma concat_groups_length (gs : list (list (list Z))) : Forall group_ok gs ->
+  Z.of_nat (length (concat (concat gs))) = C_MpegTsPacketSize * Z.of_nat (length gs).
+Proof.
+  induction 1 as [|g gs [Hg _] _ IH]; [reflexivity|]. cbn [concat length]. rewrite concat_app, app_length. lia.
+Qed.
+
+(* the k-th 188-byte block of a sequence of whole packets starts with the sync byte *)
+Lemma blocks_sync (gs : list (list (list Z))) : Forall group_ok gs -> forall k, (k < length gs)%nat ->
+  nth (188 * k) (concat (concat gs)) 0 = syncByte.
+Proof.
+  induction 1 as [|g gs [Hg Hs] _ IH]; intros k Hk; [cbn in Hk; lia|].
+  cbn [concat]. rewrite concat_app. unfold C_MpegTsPacketSize in Hg. destruct k as [|k].
+  - rewrite Nat.mul_0_r, app_nth1 by lia. exact Hs.
+  - rewrite app_nth2 by lia. replace (188 * S k - length (concat g))%nat with (188 * k)%nat by lia.
+    apply IH. cbn [length] in Hk. lia.
+Qed.
+
+Lemma mux_run_parts_out ops : forall s,
+  fst (mux_run s ops) = fst (mux_run_parts s ops) /\ snd (mux_run s ops) = map mout_of_part (snd (mux_run_parts s ops)).
+Proof.
+  induction ops as [|o r IH]; intros s; [split; reflexivity|].
+  cbn [mux_run mux_run_parts]. unfold mux_step. destruct (mux_step_part s o) as [s1 p].
+  destruct (IH s1) as [I1 I2]. destruct (mux_run s1 r) as [s2 outs]. destruct (mux_run_parts s1 r) as [s2' ps]. cbn [fst snd] in *.
+  subst. split; reflexivity.
+Qed.
+
+Lemma run_parts_wf ops : forall s, Forall part_wf (snd (mux_run_parts s ops)).
+Proof.
+  induction ops as [|o r IH]; intros s; [constructor|].
+  rewrite mux_run_parts_cons. cbn [snd]. constructor; [apply step_part_wf|apply IH].
+Qed.
+
+(* C04_aligned *)
+Theorem aligned s ops : Forall (fun o => Z.of_nat (length (mout_bytes o)) = mo_n o /\ (C_MpegTsPacketSize | mo_n o) /\
+                                        Forall group_ok (mo_groups o)) (snd (mux_run s ops)).
+Proof.
+  destruct (mux_run_parts_out ops s) as [_ ->]. apply Forall_map.
+  eapply Forall_impl; [|apply run_parts_wf]. intros p [H1 H2]. cbn [mout_of_part mo_n mo_groups mout_bytes].
+  change (mout_bytes (mout_of_part p)) with (concat (concat (pa_groups p))). rewrite (concat_groups_length _ H2), H1.
+  split; [reflexivity|]. split; [|exact H2]. exists (Z.of_nat (length (pa_groups p))). lia.
+Qed.
+
+(* C04_sync, per call and over the whole output of a run *)
+Theorem sync_blocks s ops :
+  Forall (fun o => forall k, (k < length (mo_groups o))%nat -> nth (188 * k) (mout_bytes o) 0 = syncByte) (snd (mux_run s ops)).
+Proof.
+  eapply Forall_impl; [|apply aligned]. cbn beta. intros o (_ & _ & H) k Hk. apply blocks_sync; assumption.
+Qed.
+
+Theorem sync_blocks_run s ops :
+  let gs := concat (map mo_groups (snd (mux_run s ops))) in
+  Z.of_nat (length (concat (concat gs))) = C_MpegTsPacketSize * Z.of_nat (length gs) /\
+  forall k, (k < length gs)%nat -> nth (188 * k) (concat (concat gs)) 0 = syncByte.
+Proof.
+  intros gs. assert (H : Forall group_ok gs).
+  { subst gs. pose proof (aligned s ops) as A. induction A as [|o l (_ & _ & Ho) _ IH]; [constructor|].
+    cbn [map concat]. apply Forall_app. split; assumption. }
+  split; [apply concat_groups_length, H|]. intros k Hk. apply blocks_sync; assumption.
+Qed.
+
+(* rejected calls: exactly what the code does *)
+Lemma write_tables_rejected s s2 pt : write_tables s = (s2, pt) -> pa_res pt <> Ok tt -> pa_groups pt = [] /\ pa_n pt = 0.
+Proof.
+  unfold write_tables, generate_pat, generate_pmt.
+  destruct (next_version (ms_pat_version s) (ms_pm_updated s)) as [patv pver].
+  destruct (write_psi_data (psi_of_section (pat_section pver))) as [ppay|c|]; try (intros H; pinj H; split; reflexivity).
+  destruct (write_packet (table_packet C_PIDPAT (wrappingCounter_inc (ms_pat_cc s)) ppay) C_MpegTsPacketSize) as [bpat|c|];
+    try (intros H; pinj H; split; reflexivity).
+  match goal with |- context [if negb ?b then _ else _] => destruct (negb b) end; try (intros H; pinj H; split; reflexivity).
+  match goal with |- context [if ?a >? ?b then _ else _] => destruct (a >? b) end; try (intros H; pinj H; split; reflexivity).
+  match goal with |- context [next_version ?a ?b] => destruct (next_version a b) as [pmtv mver] end.
+  match goal with |- context [write_psi_data ?a] => destruct (write_psi_data a) as [mpay|c|] end; try (intros H; pinj H; split; reflexivity).
+  match goal with |- context [write_packet ?a ?b] => destruct (write_packet a b) as [bpmt|c|] end; try (intros H; pinj H; split; reflexivity).
+  intros H; pinj H. cbn [pa_res]. congruence.
+Qed.
+
+Lemma retransmit_rejected s f sr pt : retransmit_tables s f = (sr, pt) -> pa_res pt <> Ok tt -> pa_groups pt = [] /\ pa_n pt = 0.
+Proof.
+  unfold retransmit_tables. destruct (negb f && _); [intros H; pinj H; cbn; congruence|].
+  destruct (write_tables _) as [s2 pt'] eqn:Ewt. destruct pt' as [rt nt gt pkt]. destruct rt as [u|c|].
+  - intros H; pinj H. cbn. congruence.
+  - intros H; pinj H. intros _. apply (write_tables_rejected _ _ _ Ewt). cbn. congruence.
+  - intros H; pinj H. intros _. apply (write_tables_rejected _ _ _ Ewt). cbn. congruence.
+Qed.
+
+Theorem rejected s o s' p : mux_step_part s o = (s', p) ->
+  match o with
+  | MAdd _ | MRemove _ | MSetPCR _ => pa_groups p = [] /\ pa_n p = 0
+  | MWriteTables | MWritePacket _ => pa_res p <> Ok tt -> pa_groups p = [] /\ pa_n p = 0
+  | MWriteData d =>
+      (es_find (MuxerData_PID d) (ms_es s) = None -> pa_res p = Err E_pid_not_found /\ pa_groups p = [] /\ pa_n p = 0 /\ s' = s) /\
+      (forall sr pt, retransmit_tables s (data_forced s d) = (sr, pt) -> pa_res pt <> Ok tt ->
+         es_find (MuxerData_PID d) (ms_es s) <> None -> p = pt /\ pa_groups p = [] /\ pa_n p = 0)
+  end.
+Proof.
+  intros Hstep. destruct o as [es|q|q| |d|pk]; cbn [mux_step_part] in Hstep.
+  - destruct (add_es s es). pinj Hstep. split; reflexivity.
+  - destruct (remove_es s q). pinj Hstep. split; reflexivity.
+  - pinj Hstep. split; reflexivity.
+  - apply (write_tables_rejected _ _ _ Hstep).
+  - unfold write_data in Hstep. split.
+    + intros Hnone. rewrite Hnone in Hstep. pinj Hstep. repeat split; reflexivity.
+    + intros sr pt Hrt Hne Hsome. destruct (es_find _ _) as [ctx|]; [|congruence].
+      change (af_rai (MuxerData_AdaptationField d) && (MuxerData_PID d =? ms_pcr_pid s)) with (data_forced s d) in Hstep.
+      rewrite Hrt in Hstep. destruct (retransmit_rejected _ _ _ _ Hrt Hne) as [G1 G2].
+      destruct pt as [rt nt gt pkt]. destruct rt as [u|c|].
+      * destruct u. cbn in Hne. congruence.
+      * pinj Hstep. repeat split; assumption.
+      * pinj Hstep. repeat split; assumption.
+  - pinj Hstep. intros Hne. unfold write_packet_op in *. destruct (po_res (emit_packet pk)); cbn in *; [congruence|split; reflexivity|split; reflexivity].
+Qed.
